@@ -420,7 +420,7 @@ def check_c16(args):
             if (ty, cls) not in CONCRETE:
                 continue
             litv, want = CONCRETE[(ty, cls)]
-        col = f"v {'boolean' if ty == 'bool' else ty}{'' if nn else ' not null'}"
+        col = f"v {'boolean' if ty == 'bool' else ty}" + {"nullable": "", "not_null": " not null", "primary_key": " primary key"}[sc["decl"]]
         kl = "NULL" if sc.get("knull") else "1"
         lits = [(litv, want)] + [(l, None) for l in MORE.get((ty, cls), [])[: (4 if tier == "thorough" else 2)]]
         for litv, want in lits:
